@@ -529,7 +529,7 @@ package leader
 //@   ghost tkEntry Int = 0
 //@   on ret KeyValue.Get as g when g.result1 == nil set tkEntry = g.result0
 //@   on call KeyValue.Update as c assert C10+C05.update_carries_own_payload: c.value == payloadBytes
-//@   ensures C10+C06.nil_result_means_takeover: result == nil ==> calls(becomeLeader) == 1
+//@   ensures C10+C06+C13.nil_result_means_takeover: result == nil ==> calls(becomeLeader) == 1
 //@   ensures C10.refuses_only_equal_or_higher: tkEntry != 0 && ParseOK(EntryVal(tkEntry)) && e.cfg.Priority > PrioOf(EntryVal(tkEntry)) ==> calls(KeyValue.Update) == 1
 
 //@ func (e *kvElection) becomeLeader(token, rev)
@@ -699,6 +699,9 @@ package leader
 //@   on lock kvElection.mu set tok0 = e.token
 //@   ensures C18.snapshot_is_locked_state: result.State == st0 && result.IsLeader == lead0
 //@   ensures C05+C18.snapshot_token: result.Token == tok0
+//@   ghost revRead Int = 0
+//@   on load kvElection.revision as l set revRead = l.value
+//@   ensures C18.leader_snapshot_shows_its_own_write: lead0 ==> result.Revision == revRead
 
 //@ func (e *kvElection) OnPromote(fn)
 //@   tags C20 C08
